@@ -36,7 +36,7 @@ Definition doc_paths : list string :=
    "cached_property.cached_property"; "functools.lru_cache"; "dataclasses.dataclass"].
 (* what one decorator contributes according to the documentation: accessor decorators and unknown paths nothing *)
 Definition doc_deco_labels (d : deco) : list string :=
-  match d with DPath p => doc_labels p | DAccessor _ _ => [] end.
+  match d with DPath p => doc_labels p | _ => [] end.
 
 (* ---------- binding occurrences with their content ---------- *)
 Inductive dbind :=
@@ -132,7 +132,7 @@ Fixpoint init_details (g : bool) (pk : pkind) (nd : option (nat * nat)) (s : stm
       match names_init [t] with
       | Some ns => attr_details g (is_cond pk) ln eln (attr_labels InInit hv cv) nd ns
       | None => [] end
-  | SIf tc body orelse => idl (g || (is_level pk && tc)) PIf body ++ idl g PIf orelse
+  | SIf tc body orelse => idl (gbody g pk tc) PIf body ++ idl (gelse g pk tc) PIf orelse
   | SBlock ch => idl g POther ch
   | SSub h body => idl g (if h then PHandler else POther) body
   | _ => []
@@ -169,7 +169,7 @@ Fixpoint level_details (k : skind) (path : string) (g : bool) (pk : pkind) (nd :
       end
   | SImport ln eln names => import_details g ln eln names
   | SImportFrom ln eln names => importfrom_details g ln eln path names
-  | SIf tc body orelse => ldl (g || (is_level pk && tc)) PIf body ++ ldl g PIf orelse
+  | SIf tc body orelse => ldl (gbody g pk tc) PIf body ++ ldl (gelse g pk tc) PIf orelse
   | SBlock ch => ldl g POther ch
   | SSub h body => ldl g (if h then PHandler else POther) body
   | _ => []
@@ -222,7 +222,7 @@ Fixpoint nested_tables (k : skind) (path : string) (g : bool) (pk : pkind) (s : 
       SList [SStr "class"; SStr (dot path name); of_nat (def_first_line ln dln ds);
              enc_table (run_table (level_details_list InClass (dot path name) g PScope None body) [])]
       :: ntl InClass (dot path name) g PScope body
-  | SIf tc body orelse => ntl k path (g || (is_level pk && tc)) PIf body ++ ntl k path g PIf orelse
+  | SIf tc body orelse => ntl k path (gbody g pk tc) PIf body ++ ntl k path (gelse g pk tc) PIf orelse
   | SBlock ch => ntl k path g POther ch
   | SSub h body => ntl k path g (if h then PHandler else POther) body
   | _ => []
